@@ -74,6 +74,9 @@ func GenDocSpec(t *simkit.Tape) DocSpec {
 	}
 	cfg := model.DrawXMLConfig(t)
 	cfg.Encoding = ""
+	if t.Bool(1, 3) {
+		cfg.LangBias = true
+	}
 	if cfg.MaxNodes < 8 {
 		cfg.MaxNodes = 8
 	}
